@@ -165,3 +165,53 @@ pub fn set_thread_clock_fast(seed: Option<u64>) {
 pub fn thread_clock_reads() -> u64 {
     CLOCK_READS.with(|c| c.get())
 }
+
+
+// ---------------------------------------------------------------------------------------------
+// Seam S8: blocking.  Rust's std blocks in `syscall(SYS_futex, ..)`; defining `syscall` here
+// routes those calls (and every other use of libc's generic `syscall` by Rust code in this
+// process) through the harness.  Futex calls of scheduled workers go to the scheduler
+// (sched.rs); everything else is executed unchanged.
+//
+// `syscall` is variadic in C; on x86-64 integer arguments of variadic and ordinary calls travel
+// in the same registers, so six fixed arguments are read (unused ones hold garbage and are
+// ignored by the kernel).
+
+/// The system call itself; result in kernel convention (negative errno on failure).
+#[cfg(target_arch = "x86_64")]
+pub unsafe fn raw_syscall6(num: libc::c_long, a1: usize, a2: usize, a3: usize, a4: usize, a5: usize, a6: usize) -> isize {
+    let ret: isize;
+    core::arch::asm!(
+        "syscall",
+        inlateout("rax") num as isize => ret,
+        in("rdi") a1,
+        in("rsi") a2,
+        in("rdx") a3,
+        in("r10") a4,
+        in("r8") a5,
+        in("r9") a6,
+        lateout("rcx") _,
+        lateout("r11") _,
+        options(nostack)
+    );
+    ret
+}
+
+#[cfg(target_arch = "x86_64")]
+#[no_mangle]
+pub unsafe extern "C" fn syscall(num: libc::c_long, a1: usize, a2: usize, a3: usize, a4: usize, a5: usize, a6: usize) -> libc::c_long {
+    let r: isize = if num == libc::SYS_futex {
+        match crate::sched::futex_hook(a1, a2 as i32, a3 as u32, a4) {
+            Some(r) => r as isize,
+            None => raw_syscall6(num, a1, a2, a3, a4, a5, a6),
+        }
+    } else {
+        raw_syscall6(num, a1, a2, a3, a4, a5, a6)
+    };
+    if (-4095..0).contains(&r) {
+        *libc::__errno_location() = (-r) as libc::c_int;
+        -1
+    } else {
+        r as libc::c_long
+    }
+}
